@@ -19,6 +19,8 @@ func main() {
 		cmdXgen()
 	case "pack":
 		cmdPack()
+	case "front":
+		cmdFront()
 	case "resolve":
 		cmdResolve()
 	default:
